@@ -92,6 +92,7 @@ func (m *CPU) Context() *risc.Context {
 }
 
 func (m *CPU) Run(app risc.Application) (int, error) {
+	app.Reset()
 	m.ctx.InitRAT()
 	cycle := 0
 	for {
